@@ -169,11 +169,11 @@ def is_space(b):
 
 
 def cases_lspace(res, tier):
-    ns = list(range(0, 9)) + [31, 32, 33, 34] if tier == 'quick' else list(range(0, 41)) + [63, 64, 65, 66, 70]
-    res.bounds = 'lspace(sp, nb, p): nb in %s, every 0 <= p <= nb (quick: for nb > 8 p in {0,1,2,nb-32,nb-1,nb}), all byte values; buffer ending at a page end and in mid-page' % ns
+    ns = list(range(0, 9)) + [31, 32, 33, 34] if tier == 'quick' else list(range(0, 17)) + [31, 32, 33, 34, 40, 63, 64, 65, 66, 70]
+    res.bounds = 'lspace(sp, nb, p): nb in %s, every 0 <= p <= nb for nb <= 8 (thorough: <= 16); for larger nb p in {0,1,2,nb-33..nb-31,nb-2,nb-1,nb}, all byte values; buffer ending at a page end and in mid-page' % ns
     out = []
     for n in ns:
-        ps = range(0, n + 1) if n <= 8 or tier != 'quick' else sorted(set([0, 1, 2, n - 32 if n >= 32 else 0, n - 1, n]))
+        ps = range(0, n + 1) if n <= (8 if tier == 'quick' else 16) else sorted(set(x for x in [0, 1, 2, n - 33, n - 32, n - 31, n - 2, n - 1, n] if 0 <= x <= n))
         for p in ps:
             for page_end in (True, False):
                 out.append((n, p, page_end))
@@ -277,7 +277,7 @@ def cases_vint(res, tier, signed):
     if tier == 'quick':
         geoms = [(n, p, None) for n in range(0, 5) for p in range(0, n + 1)]
     else:
-        geoms = [(n, p, None) for n in range(0, 7) for p in range(0, min(n, 2) + 1)]
+        geoms = [(n, p, None) for n in range(0, 5) for p in range(0, n + 1)]
     # range boundary: 17 / 18 fixed leading digits, the rest of the text free
     pre_s = '92233720368547758'   # 2^63 = 9223372036854775808
     pre_u = '184467440737095516'  # 2^64 = 18446744073709551616
@@ -289,7 +289,7 @@ def cases_vint(res, tier, signed):
             geoms.append((len(pre) + t + 1, 0, '-' + pre))
     res.bounds = ('%s(src, &p, &st): all texts of %s bytes from every start offset; plus texts made of the fixed prefix %s%s '
                   'followed by %s free bytes (range boundary); buffer ending at a page end and in mid-page'
-                  % (name, '0..4' if tier == 'quick' else '0..6', '[-]' if signed else '', pre, list(tails)))
+                  % (name, '0..4', '[-]' if signed else '', pre, list(tails)))
     return [(n, p, prefix, pe) for n, p, prefix in geoms for pe in (True, False)]
 
 
